@@ -54,6 +54,11 @@ LEVEL_TEXT += (
     "a class refusing _uniform by override hands out a refinable "
     "reference mesh, and the auxiliary split mesh of refinterp / "
     "_splitref is not of the refusing class.")
+LEVEL_TEXT += (
+    " Added in the third round (review of the fix commits, DESIGN.md "
+    "9.6): "
+    "the reference mesh of a class whose element has more than vertex "
+    "nodes is of a first-order class.")
 LEVEL_NOTE = ("Trusted: numpy hstack/vstack/mean semantics. For sorted "
               "triangles the children's local order is modelled by the "
               "invariant that a sorted parent (v0<v1<v2) numbers its new "
